@@ -143,8 +143,8 @@ SCHEMES.update({
     'psb': Spec('C05', 4, dict(g='g2', x='g2', y0='g2', a='g1', b='g1', m0='bn'), sig_oracle(modn=('m0', 'm1', 'm2'), ok_malleations=NEG2), pc=True,
                 opts=lambda rng: dict(k=rng.randint(1, 3))),
     'vbnn': Spec('C05', 5, dict(mpk='ec', R='ec', z='bn', h='bn', id='bytes', msg='bytes'), sig_oracle()),
-    'pokdl': Spec('C05', 4, dict(y='ec', c='bn', r='bn'), sig_oracle(), weight=6),
-    'sokdl': Spec('C05', 4, dict(y='ec', c='bn', r='bn', msg='bytes'), sig_oracle(), weight=6),
+    'pokdl': Spec('C05', 4, dict(y='ec', c='bn', r='bn'), sig_oracle(), weight=6, extra_faults=[('forge', 'v_relkey')]),
+    'sokdl': Spec('C05', 4, dict(y='ec', c='bn', r='bn', msg='bytes'), sig_oracle(), weight=6, extra_faults=[('forge', 'v_relkey')]),
     'pokor': Spec('C05', 4, dict(y0='ec', y1='ec', c0='bn', c1='bn', r0='bn', r1='bn'), sig_oracle(), weight=6,
                   opts=lambda rng: dict(cls=rng.below(2)), extra_faults=[('stmt', 'v_swap')]),
     'sokor': Spec('C05', 4, dict(y0='ec', y1='ec', c0='bn', c1='bn', r0='bn', r1='bn', msg='bytes'), sig_oracle(), weight=6,
